@@ -12,8 +12,12 @@ def N(k, c=(), a=()):
     return {'k': k, 'c': list(c), 'a': list(a)}
 
 
-def body(id, beh, wd=1, wm=1, we=1):
-    return N('body', [], [id, beh, wd, wm, we])
+def body(id, beh, wd=1, wm=1, we=1, wi=0):
+    """wi: in-place writes (0 none, 1 mutate the pre-existing cell, 2 rebind it, 3 mapping lists, 4 placement list, 5 model)."""
+    return N('body', [], [id, beh, wd, wm, we, wi])
+
+
+WI = [0, 0, 1, 1, 1, 2, 3, 4, 5]
 
 
 def prim(t, loc):
@@ -70,7 +74,7 @@ def make_script(rng, tree, nblk=8):
 # ------------------------------------------------------------------ random direct trees (no runtime needed)
 def rand_leaf(rng, rich=True):
     beh = rng.choice([0, 0, 0, 1, 2, 3, 4] if rich else [0, 4])
-    return body(rng.randint(1, 4), beh, rng.randint(0, 1), rng.randint(0, 1), rng.randint(0, 1))
+    return body(rng.randint(1, 4), beh, rng.randint(0, 1), rng.randint(0, 1), rng.randint(0, 1), rng.choice(WI))
 
 
 def rand_tree(rng, depth, groups=False, infe=False, fail=0.0):
@@ -161,7 +165,8 @@ def rand_partitioned(rng, n, layout):
 def fe_body(rng):
     r = rng.random()
     if r < 0.45:
-        return body(rng.randint(1, 4), rng.choice([0, 1, 2, 3, 4]), rng.randint(0, 1), rng.randint(0, 1), rng.randint(0, 1))
+        return body(rng.randint(1, 4), rng.choice([0, 1, 2, 3, 4]), rng.randint(0, 1), rng.randint(0, 1), rng.randint(0, 1),
+                    rng.choice(WI))
     if r < 0.5:
         return body(rng.randint(1, 4), 5, 0, 0, 0)
     if r < 0.62:
@@ -170,7 +175,7 @@ def fe_body(rng):
         return N('if', [fe_body(rng), fe_body(rng) if rng.random() < 0.5 else N('noop')], [rng.choice([0, 0, 3])])
     if r < 0.88:
         return N('dtd', [fe_body(rng)], [rng.choice([1, 2, 3, 4])])
-    return N(rng.choice(['while', 'dowhile']), [body(rng.randint(1, 4), rng.choice([0, 2, 4]), 1, rng.randint(0, 1), 0)], [0])
+    return N(rng.choice(['while', 'dowhile']), [body(rng.randint(1, 4), rng.choice([0, 2, 4]), 1, rng.randint(0, 1), 0, rng.choice(WI))], [0])
 
 
 def has_fail(t):
@@ -189,11 +194,14 @@ def fe_case(rng, i):
     tree = fe
     shape = 'fe'
     if not calc and n <= 3 and rng.random() < 0.3:
-        shape = rng.choice(['seq-fe-fe', 'leaf-fe-leaf', 'dtd-fe', 'while-fe'])
+        shape = rng.choice(['seq-fe-fe', 'leaf-fe-leaf', 'dtd-fe', 'while-fe', 'fe-dtd-fe', 'fe-dtd-fe'])
         if shape == 'seq-fe-fe':
             tree = N('seq', [fe, N('foreach', [fe_body(rng)], [rng.choice([0, 1, 3, 4]), rng.choice([0, 1, 2, 3]), 0])])
         elif shape == 'leaf-fe-leaf':
             tree = N('seq', [rand_leaf(rng), fe, rand_leaf(rng)])
+        elif shape == 'fe-dtd-fe':      # a tentative sweep after an accepted one: ForEachBlockPass_data exists and is appended to in place
+            tree = N('seq', [fe, N('dtd', [N('foreach', [fe_body(rng)], [rng.choice([0, 1, 3, 4]), rng.choice([0, 1, 2, 3]), 0])],
+                                   [rng.choice([0, 2, 2, 3])])])
         elif shape == 'dtd-fe':
             tree = N('dtd', [fe], [rng.choice([0, 1, 2, 3])])
         else:
